@@ -155,6 +155,11 @@ def self_role(repo, fi):
             return 'shared'
     if any(repo.is_subclass(fi.cls, b) for b in OWN_SELF if repo.has_cls(b)) or fi.cls.name in OWN_SELF:
         return 'own'
+    # a private base class extracted from a per-call class (class Fragments(_SparseBuffer)): its
+    # methods run on the same per-call objects, when nothing else derives from it
+    subs = [c for c in repo.subclasses(fi.cls.name) if c is not fi.cls]
+    if subs and all(any(repo.is_subclass(c, b) for b in OWN_SELF if repo.has_cls(b)) or c.name in OWN_SELF for c in subs):
+        return 'own'
     return 'shared'          # unknown class: be conservative
 
 
